@@ -26,7 +26,7 @@ CHECK = {
                  "counters, executor identity, value checks, cancel-result bookkeeping, exact wake accounting, "
                  "sequential model of wake_one/wake_all/cancel, DepositBox slot accounting through private state); "
                  "deterministic staging of the cancel / wake_all / await_suspend windows with blocking schedule-point "
-                 "gates; perturbation policy on the cofutex:*/cocancel:*/fut:* points; TSan/ASan for frame and node lifetime",
+                 "gates; perturbation policy on the cofutex:*/cocancel:*/fut:* points; TSan/ASan for frame and node lifetime; 10^5-round futex hand-off race (check-then-suspend vs bump-then-wake)",
     "level_text": ("Runtime monitoring of the real coroutine layer: root coroutines on 1-3 thread-pool executors await "
                    "child tasks (same / other executor), Futures completed by other threads around the registration "
                    "instant and Cancellable<Task> whose token is fired inline, immediately, a little later or after "
